@@ -280,6 +280,10 @@ impl Check for C08 {
         use crate::checks::c19::{NestDef, W};
         // a command inside an optional member of a group that is one branch of an alternative
         out.push(json!({"odd": 4}));
+        // hidden commands and commands under some(..) answer for themselves
+        for k in 6..9 {
+            out.push(json!({"odd": k}));
+        }
         for cmd_wrap in [W::Bare, W::Opt, W::Many] {
             for two_values in [false, true] {
                 for inner_switch in [false, true] {
@@ -370,7 +374,7 @@ impl Check for C08 {
         }
     }
     fn rule(&self) -> String {
-        "definitions = command trees of depth <=3: top level {0,1,2 named items} x {1,2 sibling commands, either order} x {required, optional, fallback, default as last alternative, default as first alternative} x second level {0,1 named item} x {no tail, optional / required positional, required / optional / default-first third-level command with 2 leaf variants}, long and short command aliases on every third tree, fallback_to_usage on every level of a third of the trees; inputs = every vector of the token tree (full alphabet: all names, aliases, inline forms, clusters, words, `--`, unknown names) plus, per command path and alias, the canonical sentence and EVERY misplacement of each deeper-level block to each position left of its command name, unknown / duplicated / displaced command names; all judged by the level-aware reference scanner; plus `path --help` for every path: usage line starts with the path, names mentioned are exactly that level's; plus adjacent sub-commands (bare / optional / repeated, beside a parent switch, holding an adjacent group) over their token tree, judged by the block scanner: the command owns exactly its contiguous block".into()
+        "definitions = command trees of depth <=3: top level {0,1,2 named items} x {1,2 sibling commands, either order} x {required, optional, fallback, default as last alternative, default as first alternative} x second level {0,1 named item} x {no tail, optional / required positional, required / optional / default-first third-level command with 2 leaf variants}, long and short command aliases on every third tree, fallback_to_usage on every level of a third of the trees; inputs = every vector of the token tree (full alphabet: all names, aliases, inline forms, clusters, words, `--`, unknown names) plus, per command path and alias, the canonical sentence and EVERY misplacement of each deeper-level block to each position left of its command name, unknown / duplicated / displaced command names; all judged by the level-aware reference scanner; plus `path --help` for every path: usage line starts with the path, names mentioned are exactly that level's; plus adjacent sub-commands (bare / optional / repeated, beside a parent switch, holding an adjacent group) over their token tree, judged by the block scanner: the command owns exactly its contiguous block; hidden commands (alone, among visible siblings) and commands under some(..): help behind the name is the command's own".into()
     }
     fn bounds(&self, tier: Tier) -> Value {
         json!({"depth": 3, "siblings": 2, "tree_vector_length": tier.pick(3, 4), "sentence_length": "up to 9 tokens with one displaced block"})
